@@ -3,7 +3,8 @@
    of append / append_char calls and its ending and nothing else, so it is parametric in the
    writer by construction; a sink is an interpretation of that sequence (Fmt/Sinks.v).       *)
 From Coq Require Import NArith ZArith List.
-From ST Require Import Base.Outcome Base.Units Fmt.Parser Fmt.Render Fmt.RenderSpec Fmt.Sinks Fmt.SinksProofs.
+From ST Require Import Base.Outcome Base.Units Fmt.Parser Fmt.Render Fmt.RenderSpec Fmt.Sinks Fmt.SinksProofs Fmt.Strtol Fmt.ExtractProofs.
+From Coq Require Import Bool.
 Import ListNotations.
 Local Open Scope N_scope.
 
@@ -64,9 +65,8 @@ Print Assumptions wide_sink_unconditional_refuted.
 
 (* insertion: os << s writes the string's bytes (char stream) / the reference transcoding of
    well-formed text (wchar_t, char16_t, char32_t streams).
-   extraction (is >> s stores the token subject to the default validation) is modelled
-   (Sinks.extract_token / set_from_token) and checked by correspondence against the token
-   std::basic_string takes; the tokenisation is libstdc++'s, there is no theorem about it. *)
+   extraction: see the theorems below (the tokenisation itself is libstdc++'s; its model
+   Sinks.extract_token is validated against the token std::basic_string takes on every run). *)
 Theorem insertion_partial : forall s,
   insert_units CtChar s = s /\
   (forall u, decode_utf8 s = Some u ->
@@ -78,3 +78,42 @@ Print Assumptions insertion_partial.
 (* non-vacuity of wide_sink's hypothesis *)
 Example chunk_ok_satisfiable : Forall (chunk_ok WChar16) [EApp [195; 169]; EPad 32 3; EApp [240; 159; 152; 128]].
 Proof. exact SinksProofs.chunk_ok_example. Qed.
+
+(* ---- extraction: is >> s ----
+   the modelled token is the first maximal whitespace-free run of the input (what a std::basic_string extraction
+   takes in the "C" locale); *)
+Theorem extraction_token : forall ct l, ct = CtChar \/ ct = CtWchar ->
+  exists pre rest, l = pre ++ extract_token ct l ++ rest /\ forallb isspace pre = true /\
+    nospace (extract_token ct l) = true /\ (rest = [] \/ exists c r, rest = c :: r /\ isspace c = true) /\
+    (extract_token ct l = [] -> rest = []).
+Proof. exact token_spec. Qed.
+Print Assumptions extraction_token.
+
+(* the string then holds that token subject to the default validation (check_validity): a char stream stores the
+   token unchanged if it is well-formed UTF-8 and throws unicode_error otherwise; a wchar_t stream stores the
+   standard UTF-8 encoding of the token's units and throws exactly when a unit is above U+10FFFF *)
+Theorem extraction_stores_token_char : forall tok, N.of_nat (length tok) < huge_buffer_size ->
+  set_from_token CtChar tok = if validate_utf8 tok then Ok tok else Throw UnicodeError.
+Proof. exact stored_char. Qed.
+Print Assumptions extraction_stores_token_char.
+Theorem extraction_stores_token_wide : forall tok,
+  (forallb (fun u => u <=? 0x10FFFF) tok = true ->
+     set_from_token CtWchar tok = Ok (flat_map utf8_enc tok) /\ set_from_token CtChar32 tok = Ok (flat_map utf8_enc tok)) /\
+  (forallb (fun u => u <=? 0x10FFFF) tok = false -> set_from_token CtWchar tok = Throw UnicodeError).
+Proof. intros tok. split; [exact (stored_wide tok) | exact (stored_wide_rejects tok)]. Qed.
+Print Assumptions extraction_stores_token_wide.
+
+(* extraction inverts insertion on whitespace-free text *)
+Theorem extraction_inverts_insertion : forall s,
+  (nospace s = true -> N.of_nat (length s) < huge_buffer_size -> validate_utf8 s = true ->
+     set_from_token CtChar (extract_token CtChar (insert_units CtChar s)) = Ok s) /\
+  (nospace (decode_utf8_lax s) = true -> forallb (fun u => u <=? 0x10FFFF) (decode_utf8_lax s) = true ->
+     set_from_token CtWchar (extract_token CtWchar (insert_units CtWchar s)) = Ok (flat_map utf8_enc (decode_utf8_lax s))).
+Proof. intros s. split; [exact (extract_insert_char s) | exact (extract_insert_wide s)]. Qed.
+Print Assumptions extraction_inverts_insertion.
+
+Example extraction_example :
+  set_from_token CtWchar (extract_token CtWchar (insert_units CtWchar [0xC3; 0xA9; 0x41; 0xF0; 0x9F; 0x98; 0x80])) =
+    Ok [0xC3; 0xA9; 0x41; 0xF0; 0x9F; 0x98; 0x80] /\
+  extract_token CtChar [32; 9; 0x61; 0x62; 10; 0x63] = [0x61; 0x62].
+Proof. exact extract_insert_example. Qed.
